@@ -221,6 +221,7 @@ type Report struct {
 	Sweep       string
 	AllowFile   string
 	inheritedCls map[string]string
+	matchedOld   map[string]bool
 }
 
 func indent(s string) string {
